@@ -57,7 +57,9 @@ num = st.one_of(st.none(), st.integers(0, 200), st.sampled_from([0.1, 0.5, 2.5, 
 def csv_case(draw, max_tasks=7):
     spec = draw(specs.wbs_spec(max_tasks=max_tasks, min_tasks=1, min_start=False, summary_links=True))
     n = len(spec['tasks'])
-    new_ids = draw(st.lists(st.integers(-6, 40), min_size=n, max_size=n, unique=True))
+    idst = st.one_of(st.integers(-6, 40), st.integers(-6, 40), st.integers(-6, 40),
+                     st.sampled_from([2 ** 53 + 1, 2 ** 53 + 3, 10 ** 18 + 7, -(10 ** 18) - 9, 2 ** 31, 2 ** 63, 9007199254740993]))
+    new_ids = draw(st.lists(idst, min_size=n, max_size=n, unique=True))
     if draw(st.booleans()) and 0 not in new_ids:
         new_ids[0] = 0          # id 0 first in WBS order, so that it tends to be a parent
     mp = {t['id']: new_ids[k] for k, t in enumerate(spec['tasks'])}
